@@ -43,6 +43,8 @@ def shapes(tier, seed):
     b = [1, 2, 3] if tier == "quick" else [1, 2, 3, 4]
     out = [{"kind": "rows", "n_b": x, "n_o": y, "n_t": t} for x in b for y in b for t in b if x * y * t <= 36]
     out += [{"kind": "decompose", "n_b": x, "n_o": y, "n_t": t, "gseed": seed} for x in b for y in b for t in b if x * y * t <= (12 if tier == "quick" else 18)]
+    # the single-direction grid of the package is an INTEGER array ([[0, 0, 1]], ZeroRotations3D): rows built from it must still carry the real radii
+    out += [{"kind": "rows", "n_b": x, "n_o": 1, "n_t": t, "int_dirs": True} for x in (1, 2) for t in (1, 2, 3)]
     out.sort(key=lambda s: s["n_b"] * s["n_o"] * s["n_t"])
     return out
 
@@ -138,6 +140,9 @@ def run_shape(shape):
     n_b, n_o, n_t = shape["n_b"], shape["n_o"], shape["n_t"]
     R = z3.Real
     O = [[R(f"o{i}_{c}") for c in range(3)] for i in range(n_o)]
+    int_dirs = bool(shape.get("int_dirs"))
+    if int_dirs:
+        O = [[z3.RealVal(0), z3.RealVal(0), z3.RealVal(1)]]
     Q = [[R(f"q{i}_{c}") for c in range(4)] for i in range(n_b)]
     r = [R(f"r{k}") for k in range(n_t)]
     eng = Engine()
@@ -151,7 +156,7 @@ def run_shape(shape):
 
     def body():
         with bound(F, print=noprint, np=proxy), bound(TR, np=proxy, print=noprint):
-            o = DirStub(n_o, [], [1.0] * n_o, {}, {}, sp, lambda l: sarr(l), coords=sarr([[SR(x) for x in row] for row in O]))
+            o = DirStub(n_o, [], [1.0] * n_o, {}, {}, sp, lambda l: sarr(l), coords=(np.array([[0, 0, 1]]) if int_dirs else sarr([[SR(x) for x in row] for row in O])))
             radii = sarr([SR(x) for x in r])
             # other grids of the same process under the same (lossy) names: built and asked for their arrays before the grid under test
             # exists and again between its construction and its first getter
@@ -264,6 +269,8 @@ def replay(cex):
     model = cex.get("model", {}) or {}
     rng = np.random.default_rng(5)
     O = np.array([[fval(model, f"o{i}_{c}", float(rng.normal())) for c in range(3)] for i in range(n_o)])
+    if s.get("int_dirs"):
+        O = np.array([[0, 0, 1]])
     Q = np.array([[fval(model, f"q{i}_{c}", float(rng.normal())) for c in range(4)] for i in range(n_b)])
     r = np.array([fval(model, f"r{k}", 1.0 + 0.7 * k) for k in range(n_t)])
     o = DirStub(n_o, [], [1.0] * n_o, {}, {}, rsp, lambda l: np.array(l), coords=O)
